@@ -3893,15 +3893,9 @@ func (l *Lowerer) popScope() {
 		} else {
 			delete(l.locals, e.name)
 		}
-		if !e.hadConst {
-			delete(l.localConsts, e.name)
-		}
-		if !e.hadVar {
-			delete(l.localIsVar, e.name)
-		}
-		if !e.hadPtr {
-			delete(l.localIsPtr, e.name)
-		}
+		restoreFlag(l.localConsts, e.name, e.hadConst)
+		restoreFlag(l.localIsVar, e.name, e.hadVar)
+		restoreFlag(l.localIsPtr, e.name, e.hadPtr)
 		if e.hadAST {
 			l.localAbstractASTs[e.name] = e.prevAST
 		} else {
@@ -3910,13 +3904,31 @@ func (l *Lowerer) popScope() {
 	}
 }
 
+// restoreFlag puts a per-name flag back to the state it had before a scope.
+func restoreFlag(flags map[string]bool, name string, had bool) {
+	if had {
+		flags[name] = true
+	} else {
+		delete(flags, name)
+	}
+}
+
 // scopeSet records that a name is being bound in the current scope, saving
 // any previous binding for restoration by popScope.
 func (l *Lowerer) scopeSet(name string) {
 	// The new binding hides an abstract const of the same name (the abstract
-	// const path registers its AST again right after this call).
+	// const path registers its AST again right after this call), and it starts
+	// without the kind flags of the binding it shadows: `let p = &v; { var p = 0u; }`
+	// must not treat the inner p as a pointer. The caller sets the flags of the
+	// new binding after this call.
 	prevAST, hadAST := l.localAbstractASTs[name]
 	delete(l.localAbstractASTs, name)
+	_, hadConst := l.localConsts[name]
+	_, hadVar := l.localIsVar[name]
+	_, hadPtr := l.localIsPtr[name]
+	delete(l.localConsts, name)
+	delete(l.localIsVar, name)
+	delete(l.localIsPtr, name)
 	if len(l.scopeStack) == 0 {
 		return
 	}
@@ -3930,9 +3942,6 @@ func (l *Lowerer) scopeSet(name string) {
 	}
 
 	prevExpr, hadLocal := l.locals[name]
-	_, hadConst := l.localConsts[name]
-	_, hadVar := l.localIsVar[name]
-	_, hadPtr := l.localIsPtr[name]
 
 	frame.entries = append(frame.entries, scopeEntry{
 		name:     name,
